@@ -1,4 +1,6 @@
+import os
 import shutil
+import stat
 from typing import Tuple, Callable
 
 from exactly_lib.execution.configuration import ExecutionConfiguration
@@ -60,5 +62,28 @@ def execute(test_case: TestCase,
     finally:
         if not is_keep_sandbox:
             if ret_val is not None and ret_val.has_sds:
-                shutil.rmtree(str(ret_val.sds.root_dir),
-                              ignore_errors=True)
+                _remove_sds(str(ret_val.sds.root_dir))
+
+
+def _remove_sds(root_dir: str):
+    """
+    Removes the sandbox, including files and directories
+    for which the test case has removed permissions.
+    """
+    retried = set()
+
+    def make_accessible_and_retry(function, path, exc_info):
+        if path in retried:
+            return
+        retried.add(path)
+        try:
+            os.chmod(os.path.dirname(path), stat.S_IRWXU)
+            os.chmod(path, stat.S_IRWXU)
+            if function in (os.unlink, os.rmdir):
+                function(path)
+            else:
+                shutil.rmtree(path, onerror=make_accessible_and_retry)
+        except OSError:
+            pass
+
+    shutil.rmtree(root_dir, onerror=make_accessible_and_retry)
